@@ -114,6 +114,7 @@ type Spec struct {
 	Enums    []EnumSpec    `json:"enums"`
 	SelSets  []SelSetSpec  `json:"selsets"`
 	CallArgs []CallArgSpec `json:"callargs"`
+	Guards   []SkelSpec    `json:"guards"` // functions whose `if` conditions are emitted as source text (Gen.Guard.<name>)
 }
 
 var fset = token.NewFileSet()
@@ -983,6 +984,45 @@ func genLocals(root string, ls *LocalSpec, out *strings.Builder) {
 	fmt.Fprintf(out, "end %s\n\n", ls.NS)
 }
 
+// ---------------------------------------------------------------- guards
+
+// genGuards emits, in source order, the text of every `if` header (init; cond) and every
+// `range` expression of the function, so that a dropped or altered guard changes a Gen
+// definition that a theorem pins by `decide`.
+func genGuards(root string, ss *SkelSpec, out *strings.Builder) {
+	p := loadPkg(root, ss.Dir)
+	key := ss.Func
+	if ss.Recv != "" {
+		key = ss.Recv + "." + ss.Func
+	}
+	fd, ok := p.funcs[key]
+	if !ok {
+		die("guards: function %s not found in %s", key, ss.Dir)
+	}
+	src := func(n ast.Node) string {
+		var sb strings.Builder
+		if err := printer.Fprint(&sb, fset, n); err != nil {
+			die("guards: %v", err)
+		}
+		return strings.Join(strings.Fields(sb.String()), " ")
+	}
+	var conds []string
+	ast.Inspect(fd.Body, func(n ast.Node) bool {
+		switch st := n.(type) {
+		case *ast.IfStmt:
+			c := src(st.Cond)
+			if st.Init != nil {
+				c = src(st.Init) + "; " + c
+			}
+			conds = append(conds, leanStr("if "+c))
+		case *ast.RangeStmt:
+			conds = append(conds, leanStr("range "+src(st.X)))
+		}
+		return true
+	})
+	fmt.Fprintf(out, "def %s : List String := [%s]\n", ss.Name, strings.Join(conds, ", "))
+}
+
 // ---------------------------------------------------------------- main
 
 func writeIfChanged(path, content string) {
@@ -1058,6 +1098,14 @@ func genModule(repo string, spec *Spec, outDir string) {
 			genFlow(repo, &spec.Flows[i], &cs)
 		}
 		cs.WriteString("end Flow\n\n")
+	}
+	if len(spec.Guards) > 0 {
+		cs.WriteString("namespace Guard\n")
+		sort.SliceStable(spec.Guards, func(i, j int) bool { return spec.Guards[i].Name < spec.Guards[j].Name })
+		for i := range spec.Guards {
+			genGuards(repo, &spec.Guards[i], &cs)
+		}
+		cs.WriteString("end Guard\n\n")
 	}
 	cs.WriteString("end Gen\n")
 	writeIfChanged(filepath.Join(outDir, spec.Module+".lean"), cs.String())
